@@ -45,6 +45,12 @@ type c16Workload struct {
 	pairs []c16Pair
 	// ids discovered while running
 	assetID map[string]uint64
+	// probes
+	epochSeen map[string]rewardstypes.EpochInfo
+	seenMax   map[string]uint64
+	// breadth (c16_breadth_test.go)
+	limitBids []c16LimitBid
+	total     int // number of blocks of the run (0 = open-ended: no emergency shutdown)
 }
 
 type c16Pair struct {
@@ -55,15 +61,96 @@ type c16Pair struct {
 }
 
 func c16NewWorkload(in *c16Inst, seed uint64, thor bool) *c16Workload {
-	return &c16Workload{in: in, rng: NewRng(seed), thor: thor, price: map[uint64]uint64{}, assetID: map[string]uint64{}}
+	return &c16Workload{in: in, rng: NewRng(seed), thor: thor, price: map[uint64]uint64{}, assetID: map[string]uint64{}, epochSeen: map[string]rewardstypes.EpochInfo{}, seenMax: map[string]uint64{}}
 }
 
-// blockGap: seconds between blocks; every 8th block a day passes (epochs, gauges, reward distribution, interest).
+// blockGap: seconds between blocks; every 8th block a day passes (epochs, gauges, reward distribution, interest);
+// CHAIN HALTS: before block 21 (and every 24 blocks from there) the chain stands still for several days — more than two
+// durations of every epoch in the store (12 h, 24 h, 36 h) —, the x/rewards BeginBlocker takes its halt-recovery branch.
 func (w *c16Workload) blockGap(b int) int64 {
+	if w.isHalt(b) {
+		return int64(3+(b/24)%3)*86400 + 7*3600 + 13
+	}
 	if b > 0 && b%8 == 0 {
 		return 86400 + 60
 	}
+	if b > 0 && b%8 == 4 {
+		return 12*3600 + 30 // half a day: the 12 h epoch runs at another rhythm than the 24 h epoch
+	}
 	return 6
+}
+
+func (w *c16Workload) isHalt(b int) bool { return b >= 21 && b%24 == 21 }
+
+// probe (after the block's Commit): counts what the begin / end blockers did, from the state they left
+func (w *c16Workload) probe(b int) {
+	in := w.in
+	ctx := in.app.BaseApp.NewUncachedContext(false, in.header)
+	for _, e := range in.app.Rewardskeeper.GetAllEpochInfos(ctx) {
+		key := "epoch:" + e.Duration.String()
+		if prev, ok := w.epochSeen[key]; ok {
+			if e.CurrentEpoch > prev.CurrentEpoch {
+				in.stats["unit:rewards-epoch-trigger:"+e.Duration.String()]++
+			} else if !e.CurrentEpochStartTime.Equal(prev.CurrentEpochStartTime) && prev.CurrentEpoch > 0 {
+				in.stats["unit:rewards-epoch-halt-recovery:"+e.Duration.String()]++
+			}
+		}
+		w.epochSeen[key] = e
+	}
+	if w.isHalt(b) {
+		in.stats["chain-halt-blocks"]++
+	}
+	// new objects created by begin / end blockers and handlers, by their highest id / count
+	grow := func(key string, n uint64) {
+		if n > w.seenMax[key] {
+			in.stats["unit:"+key] += int(n - w.seenMax[key])
+			w.seenMax[key] = n
+		}
+	}
+	var maxAuc uint64
+	for _, a := range in.app.NewaucKeeper.GetAuctions(ctx) {
+		if a.AuctionId > maxAuc {
+			maxAuc = a.AuctionId
+		}
+	}
+	grow("auctionsV2-auction-started", maxAuc)
+	var maxLv uint64
+	for _, lv := range in.app.NewliqKeeper.GetLockedVaults(ctx) {
+		if lv.LockedVaultId > maxLv {
+			maxLv = lv.LockedVaultId
+		}
+	}
+	grow("liquidationsV2-locked-vault", maxLv)
+	grow("liquidationV1-locked-vault", uint64(len(in.app.LiquidationKeeper.GetLockedVaults(ctx))))
+	var trig, extEpochs uint64
+	for _, g := range in.app.Rewardskeeper.GetAllGauges(ctx) {
+		trig += g.TriggeredCount
+	}
+	grow("rewards-gauge-distribution", trig)
+	for id := uint64(1); id <= in.app.Rewardskeeper.GetEpochTimeID(ctx); id++ {
+		if e, ok := in.app.Rewardskeeper.GetEpochTime(ctx, id); ok {
+			extEpochs += e.Count
+		}
+	}
+	grow("rewards-external-programme-day", extEpochs)
+	if st, ok := in.app.EsmKeeper.GetESMStatus(ctx, c16AppHarbor); ok && st.Status {
+		in.stats["unit:esm-active-block"]++
+		if st.SnapshotStatus {
+			in.stats["unit:esm-snapshot-taken-block"]++
+		}
+		if st.VaultRedemptionStatus {
+			in.stats["unit:esm-vault-redemption-set-up-block"]++
+		}
+	}
+	inactive := 0
+	for _, t := range in.app.MarketKeeper.GetAllTwa(ctx) {
+		if !t.IsPriceActive {
+			inactive++
+		}
+	}
+	if inactive > 0 {
+		in.stats["unit:market-prices-inactive-block"]++
+	}
 }
 
 func (w *c16Workload) must(err error, what string) {
@@ -124,6 +211,9 @@ func (w *c16Workload) block(b int) {
 		w.fixtureVaultLocker()
 	case 2:
 		w.fixtureLend()
+		if w.variant == 0 {
+			w.breadthFixture()
+		}
 	default:
 		w.oracleStep(b)
 		if b == 3 {
@@ -133,6 +223,7 @@ func (w *c16Workload) block(b int) {
 		w.vaultLockerStep(b)
 		w.lendStep(b)
 		w.liquidationAuctionStep(b)
+		w.breadthStep(b)
 	}
 }
 
@@ -369,7 +460,7 @@ func (w *c16Workload) fixtureLend() {
 		in.tx(whale, "lend.lend", lendtypes.NewMsgLend(w.addr(whale).String(), x.asset, sdk.NewCoin(x.denom, sdk.NewInt(20_000_000_000)), x.pool, c16AppLend))
 	}
 	in.tx(whale, "rewards.ext-lend", &rewardstypes.ActivateExternalRewardsLend{AppMappingId: c16AppLend, CPoolId: 1, AssetId: []uint64{aCMDX, aCMST}, CSwapAppId: c16AppSwap,
-		CSwapMinLockAmount: 0, TotalRewards: sdk.NewCoin("uharbor", sdk.NewInt(50_000_000)), MasterPoolId: 1, DurationDays: 5, MinLockupTimeSeconds: 1, Depositor: w.addr(whale).String()})
+		CSwapMinLockAmount: 0, TotalRewards: sdk.NewCoin("uharbor", sdk.NewInt(50_000_000)), MasterPoolId: 2, DurationDays: 5, MinLockupTimeSeconds: 1, Depositor: w.addr(whale).String()})
 }
 
 // ---------------------------------------------------------------------------------------------------------------
@@ -505,7 +596,8 @@ func (w *c16Workload) liquidityStep(b int) {
 		who := w.user()
 		p := w.pairs[w.rng.Intn(len(w.pairs))]
 		poolID := p.pools[w.rng.Intn(len(p.pools))]
-		msg := rewardstypes.NewMsgCreateGauge(c16AppSwap, w.addr(who), in.now.Add(10*time.Second), rewardstypes.LiquidityGaugeTypeID, 24*time.Hour,
+		dur := []time.Duration{12 * time.Hour, 24 * time.Hour, 36 * time.Hour, 24 * time.Hour}[(b/7)%4]
+		msg := rewardstypes.NewMsgCreateGauge(c16AppSwap, w.addr(who), in.now.Add(10*time.Second), rewardstypes.LiquidityGaugeTypeID, dur,
 			sdk.NewCoin("uharbor", sdk.NewInt(int64(30_000_000+w.rng.Intn(1000)))), uint64(2+w.rng.Intn(3)))
 		child := []uint64{}
 		master := false
@@ -552,8 +644,10 @@ func (w *c16Workload) twinPositions() {
 func (w *c16Workload) vaultLockerStep(b int) {
 	in := w.in
 	vk := in.app.VaultKeeper
-	if b == 6 || b == 30 {
-		// needs the app's vault mapping, i.e. at least one vault
+	if b == 3 || b == 30 {
+		// needs the app's vault mapping, i.e. at least one vault (twinPositions, block 3) — and NO vault of another extended
+		// pair of the app yet (x/rewards/keeper/keeper.go:184-188 rejects the request as soon as the app has a vault of any other
+		// pair: the stable-mint vault of breadthStep is opened later in block 3; the request of block 30 is rejected)
 		in.tx(0, "rewards.ext-vault", rewardstypes.NewMsgActivateExternalRewardsVault(c16AppHarbor, 1, sdk.NewCoin("uharbor", sdk.NewInt(50_000_000)), 5, 1, w.addr(0)))
 	}
 	n := 1 + w.rng.Intn(3)
@@ -712,10 +806,6 @@ func (w *c16Workload) liquidationAuctionStep(b int) {
 		if amt.IsPositive() {
 			in.tx(who, "auctionsV2.market-bid", aucv2types.NewMsgPlaceMarketBid(w.addr(who).String(), a.AuctionId, sdk.NewCoin(a.DebtToken.Denom, amt)))
 		}
-	}
-	if b%9 == 4 {
-		who := w.user()
-		in.tx(who, "auctionsV2.limit-bid", aucv2types.NewMsgDepositLimitBid(w.addr(who).String(), 1, 2, sdk.NewInt(int64(5+w.rng.Intn(10))), sdk.NewCoin("ucmst", sdk.NewInt(int64(5_000_000+w.rng.Intn(20_000_000))))))
 	}
 }
 
